@@ -14,7 +14,7 @@ TEXT = {
          "Lean kernel; the theorem is about the model: Go-level memory safety where the model is total (index arithmetic, nil maps) is covered by the correspondence run and the regenerated list of explicit panic sites, not proved."),
  "C02": ("Theorems: the whole driver equals an executable schedule specification (`runProgram_eq_spec`: BEGIN once, files/values/selector roots in order, BEGINFILE / per-element pattern rules / ENDFILE, END once; one loop combinator, one handler for `next`, nothing handles `exit`), with exact layer lemmas and clause corollaries (rules in source order, pattern test, next affects one element, exit runs nothing more, $ / $index / $file bindings, body-less rule prints $). Correspondence: tagged-trace programs over all mixes of rule kinds, selectors, files, JSONL, programs assigning $file/$index/$, programs with up to 60 rules, long schedules; an independent Go reading of the schedule predicts class and output.",
          "Lean kernel; model validated against the real driver by the correspondence run."),
- "C03": ("Theorems: the decoder model (byte-exact port of encoding/json Decoder.Decode) is prefix-stable; the driver processes `pre ++ more` by first doing exactly what it does on `pre` and then only appending output (`prefix_processed_first`, any program/selectors/split/stream end); a file ends normally only on a clean end of stream, a fault is reported with the file name without running a rule on the partial value. Correspondence: every chunking of short streams, data delivered with the terminal error, empty reads, values above 64 KiB, truncation/corruption/reader failure at every offset, $file assigned before a fault, FIFOs and open pipes through the real binary (output visible before the rest of the stream is sent).",
+ "C03": ("Theorems: the decoder model (byte-exact port of encoding/json Decoder.Decode) is prefix-stable and needs exactly a value's own bytes (arrays, objects) or one byte more (numbers, strings, literals) (`available_exactly_when`); the first k values are processed to the same state from any file that starts with their bytes plus one byte (`k_values_and_one_byte_suffice`, `run_passes_through`); the driver processes `pre ++ more` by first doing exactly what it does on `pre` and then only appending output (`prefix_processed_first`, any program/selectors/split/stream end); a file ends normally only on a clean end of stream, a fault is reported with the file name without running a rule on the partial value. Correspondence: every chunking of short streams, data delivered with the terminal error, empty reads, values above 64 KiB, truncation/corruption/reader failure at every offset, $file assigned before a fault, FIFOs and open pipes through the real binary (output visible before the rest of the stream is sent).",
          "Lean kernel; the decoder port is differentially tested against encoding/json (3.7M cases) and against the real runs; blocking reads are runtime behaviour exhibited only by the binary-level family."),
  "C04": ("Theorems: conversion to JSON terminates on every heap (cyclic or not), succeeds exactly for acyclic JSON-expressible values, preserves empties at any depth, and document -> value -> JSON tree is the identity up to key order and number formatting (`newValue_roundtrip`; tree level: the written bytes are compared with Go's decoder by the correspondence run). Correspondence: documents with empties, escapes, `%`, non-ASCII, nesting up to the decoder's 10 000 levels, shared and cyclic program-built values, through json(), -o in-process and -o FILE / -o - of the real binary (also onto existing files); Go re-parse oracle.",
          "Lean kernel; MarshalIndent/Decoder ports differentially tested against encoding/json; number formatting via the exact F64 port (tested against strconv)."),
